@@ -172,6 +172,51 @@ Theorem ev_sound : forall (phi : expr -> Q) e rest,
 Proof. exact ev_sound_lemma. Qed.
 Print Assumptions ev_sound.
 
+(* the formula that K evaluates against the real code in the stored-action scenario (forward on batch 1, forward on
+   batch 2, action_log_prob of the stored actions) IS the definition under batch 2's logits and mask — for every space,
+   every size, every batch, masked or not, squashed or not: K compares the implementation with the definition itself *)
+Theorem scenario_stored_formula : forall sp squash masked B,
+  space_ok sp -> 0 < B -> 0 < ncomp sp -> (masked = true -> is_box sp = false) ->
+  run_scenario ScStored sp squash masked B false
+  = named "lp2"%string
+          (spec_logprob sp (squash && is_box sp)
+                        (eff_logits (var_t2 "logit2"%string B (flatdim sp)) (opt_mask masked "mask2"%string sp B))
+                        (ed_log_std (ed_init sp squash)) (var_action "action"%string sp B)).
+Proof. exact scenario_stored_formula_lemma. Qed.
+Print Assumptions scenario_stored_formula.
+
+(* ... and the same for PPO: get_action on batch 1, then evaluate_actions(batch 2, stored actions): log-probability =
+   definition under batch 2's (unmasked) logits; entropy = definition, or -mean(log-probability) with squashing *)
+Theorem scenario_ppo_eval_formula : forall sp squash masked B,
+  space_ok sp -> 0 < B -> 0 < ncomp sp -> (masked = true -> is_box sp = false) ->
+  let S := spec_logprob sp (squash && is_box sp) (var_t2 "logit2"%string B (flatdim sp)) (ed_log_std (ed_init sp squash))
+                        (var_action "action"%string sp B) in
+  run_scenario ScPPOEval sp squash masked B false
+  = oapp (named "lp2"%string S)
+         (named "ent2"%string
+                (ppo_entropy S (if squash && is_box sp then None
+                                else Some (spec_entropy sp (var_t2 "logit2"%string B (flatdim sp)) (ed_log_std (ed_init sp squash)))))).
+Proof. exact scenario_ppo_eval_formula_lemma. Qed.
+Print Assumptions scenario_ppo_eval_formula.
+
+(* learn(): with the restored component axis, the formula of the learn() scenario is the formula of evaluate_actions,
+   hence (previous theorem) the definition — for one-component spaces too *)
+Theorem scenario_ppo_learn_formula : forall sp squash masked B,
+  run_scenario ScPPOLearn sp squash masked B false = run_scenario ScPPOEval sp squash masked B false.
+Proof. exact scenario_ppo_learn_formula_lemma. Qed.
+Print Assumptions scenario_ppo_learn_formula.
+
+(* IPPO._learn_individual (actor(batch_states), then action_log_prob of the minibatch actions): definition, and the entropy *)
+Theorem scenario_ippo_learn_formula : forall sp squash masked B,
+  space_ok sp -> 0 < B -> 0 < ncomp sp -> (masked = true -> is_box sp = false) ->
+  run_scenario ScIPPOLearn sp squash masked B false
+  = oapp (named "lp2"%string (spec_logprob sp (squash && is_box sp) (var_t2 "logit2"%string B (flatdim sp))
+                                            (ed_log_std (ed_init sp squash)) (var_action "action"%string sp B)))
+         (if squash && is_box sp then Some [("ent2"%string, [])]
+          else named "ent2"%string (spec_entropy sp (var_t2 "logit2"%string B (flatdim sp)) (ed_log_std (ed_init sp squash)))).
+Proof. exact scenario_ippo_learn_formula_lemma. Qed.
+Print Assumptions scenario_ippo_learn_formula.
+
 (* ---- non-vacuity: concrete states satisfy the hypotheses ---- *)
 Open Scope string_scope.
 (* a stored action (plain variables) misses the cache after two forwards of a squashed Box policy, and the theorem applies *)
